@@ -321,3 +321,27 @@ Proof.
     assert (B1 : b1 = true) by (rewrite Hb1; apply Z.ltb_lt; lia). rewrite B1 in Hi1.
     assert (B2 : b2 = true) by (rewrite Hb2; apply Z.ltb_lt; lia). rewrite B2 in Hi2. lia.
 Qed.
+
+(** ** round 8b: two routes to the same index without uniformity (time, step; table by table) *)
+(** two routes to the same index: time and step agree on EVERY listing (no uniformity), and so does every
+    table all of whose cells are assigned at every result set, whatever the other tables do *)
+Lemma nav_same_index_same_tm_sp rnd L : lsets L <> [] -> forall ops1 ops2,
+  idx (run rnd L (open L) ops1) = idx (run rnd L (open L) ops2) ->
+  tm (run rnd L (open L) ops1) = tm (run rnd L (open L) ops2) /\
+  sp (run rnd L (open L) ops1) = sp (run rnd L (open L) ops2).
+Proof.
+  intros HL ops1 ops2 Hi.
+  pose proof (nav_index_time_step rnd L HL ops1) as H1. destruct H1 as (_ & r1 & N1 & T1 & S1).
+  pose proof (nav_index_time_step rnd L HL ops2) as H2. destruct H2 as (_ & r2 & N2 & T2 & S2).
+  rewrite Hi in N1. rewrite N1 in N2. inversion N2; subst r2. split; congruence.
+Qed.
+Lemma nav_same_index_same_tab rnd L : lsets L <> [] -> forall k, uniform_table L k -> forall ops1 ops2,
+  idx (run rnd L (open L) ops1) = idx (run rnd L (open L) ops2) ->
+  nth_error (tabs (run rnd L (open L) ops1)) k = nth_error (tabs (run rnd L (open L) ops2)) k /\
+  nth_error (tabs (run rnd L (open L) ops1)) k <> None.
+Proof.
+  intros HL k Hk ops1 ops2 Hi.
+  pose proof (nav_fresh_table rnd L HL k Hk ops1) as H1. cbn zeta in H1. destruct H1 as (f1 & F1 & _ & _ & _ & E1 & NN).
+  pose proof (nav_fresh_table rnd L HL k Hk ops2) as H2. cbn zeta in H2. destruct H2 as (f2 & F2 & _ & _ & _ & E2 & _).
+  rewrite Hi in F1. rewrite F1 in F2. inversion F2; subst f2. split; [congruence|exact NN].
+Qed.
